@@ -117,6 +117,10 @@ def oracle_c35(world, x, ctxs, ref):
         if pending:
             probs.append(('close-early', f'party {p} closed its connection to {peer} '
                           f'({"shutdown" if active else "peer EOF"}) with unfinished coroutines {pending[:3]}'))
+    for p in range(world.m):
+        # an exception inside a connection callback during start/shutdown (e.g. a Future completed twice by connection_lost)
+        for e in world.loop_errors[p][:1]:
+            probs.append(('callback-error', f'party {p}: exception in an event-loop callback: {e.get("exception") or e.get("message")}'))
     if x.status == 'done':
         for p in range(world.m):
             rt = world.mpcs[p]
@@ -167,7 +171,7 @@ def install_close_monitor(world):
 
 SMALL = ('mul_cmp', 'mod_race', 'reverse_await', 'subset_output', 'transfer_graph', 'barrier_top',
          'barrier_nested', 'early_return', 'user_coro', 'convert', 'small_field', 'throttle',
-         'zero_tests', 'linalg', 'survivors', 'no_barrier_shutdown', 'restart_threshold')
+         'zero_tests', 'linalg', 'survivors', 'no_barrier_shutdown', 'restart_threshold', 'barrier_single')
 MEDIUM = ('nopc_ops_race', 'randoms', 'mutate_after_call', 'pc_ops_race0', 'pc_ops_race1', 'pc_ops_race2', 'pc_ops_race3')
 # everything else is LARGE (thousands of steps per execution)
 # approximate number of single deviations of the default run, for slicing only
